@@ -2,7 +2,7 @@
 # import_seeded.sh <PID> : copy the agent's SEEDED/m1,m2 into /verif/seeded/<PID>-m1, -m2 with a skeleton meta.json
 set -e
 P=$1
-for m in m1 m2 m3 m4 m5 m6 m7 m8 m9 m10 m11 m12; do
+for m in m1 m2 m3 m4 m5 m6 m7 m8 m9 m10 m11 m12 m13; do
   src=${SEEDROOT:-/tmp/seedwork}/wt-$P/SEEDED/$m
   [ -d "$src" ] || continue
   dst=/verif/seeded/$P-$m
